@@ -111,7 +111,11 @@ def run_selftest(pid: str, run: Run, seed: int = 0, jobs: int | None = None) -> 
                 meta = json.loads(mf.read_text())
                 if not meta.get("confirmed"):
                     continue
-                sib = meta.get("sibling_violations", {}).get(pid)
+                # `fail_closed`: reviewed reports that are NOT demonstrated violations -- the rule refuses to vouch for a
+                # construct it has no reviewed entry for (a new call-time coupling) and says so; kept apart from the true
+                # sibling violations, expected just as exactly
+                sib = dict(meta.get("sibling_violations", {}).get(pid) or {})
+                sib.update(meta.get("fail_closed", {}).get(pid) or {})
                 if sib:
                     # an extension whose author vouched for another property and which was confirmed by hand to violate
                     # this one: the reviewed findings must be reported, and nothing else
